@@ -35,7 +35,9 @@ ASSUMPTIONS = [
     "between two events files only grow, so every intermediate durable state is a prefix of an inspected one",
     "the key is searched as raw bytes, base64 and hex, in files and inside zip/npz/gz members",
     "num_workers=0, CPU, litdata framework not simulated (subprocess + binary format)",
-    "the real wandb service process is replaced by a fake that is strictly more talkative on disk",
+    "the real wandb service process is replaced by a fake that is strictly more talkative on disk; its logger creates the run lazily like Lightning's WandbLogger",
+    "resume runs (child process only): torch.load defaults to weights_only=False, as with the torch the repository targets (torch >= 2.6 in this sandbox cannot re-load Lightning checkpoints that carry OmegaConf hyper-parameters)",
+    "trainer_config.lr_scheduler / early_stopping set to null are valid configurations (the schema's defaults for these Optional fields)",
 ]
 TIERS = {
     "quick": {"runs": 1100, "time_cap_s": 95, "chunk": 8, "det_inproc": 3, "det_fresh": 2, "minimise_s": 60, "watchdog_s": 600},
@@ -110,12 +112,15 @@ def gen_plan(rng, index, tier):
     if p.get("rerun") and rng.random() < 0.6:
         others = [m for m in MODEL_TYPES if m != p["model_type"] and (m != "single_instance")]
         p["rerun_other_model"] = rng.choice(others)
+    elif p.get("rerun") and p["save_ckpt"] and rng.random() < 0.7:
+        p["resume"] = True  # continue from the earlier run's checkpoint (and, with tracking, its run id)
+        p["epochs"] = 2  # the earlier run trained 3 - 2 = 1 epoch: there is an epoch left to train
     return p
 
 
 def describe(plan):
     return {k: plan[k] for k in ("model_type", "fw", "use_wandb", "wandb_mode", "save_ckpt", "save_last", "delete_chunks",
-                                 "origin", "explicit_chunks", "tmp_same_fs", "data", "epochs", "mode", "fault_at", "low_memory") if k in plan} | {k: plan.get(k) for k in ("login_fault", "rerun")}
+                                 "origin", "explicit_chunks", "tmp_same_fs", "data", "epochs", "mode", "fault_at", "low_memory") if k in plan} | {k: plan.get(k) for k in ("login_fault", "rerun", "rerun_other_model", "resume", "lr_sched", "early_null", "optimizer", "crop_auto", "min_crop_size", "yaml_filename")}
 
 
 def shrink(plan):
@@ -155,7 +160,9 @@ def shrink(plan):
     if plan.get("login_fault"):
         yield mod(login_fault=False)
     if plan.get("rerun"):
-        yield mod(rerun=False)
+        yield mod(rerun=False, resume=False, rerun_other_model=None)
+    if plan.get("resume"):
+        yield mod(resume=False)
     if plan["model_type"] != "centroid":
         yield mod(model_type="centroid")
     if plan.get("fault_at"):
@@ -291,6 +298,7 @@ def execute(plan, choices=None):
             "wandb_fake_used": int(any("/wandb/" in e[1] for e in events)),
             "structured_origin": int(plan["origin"] == "structured"),
             "config_records_source_yaml_path": int(bool(plan.get("yaml_filename"))),
+            "resumed_from_earlier_checkpoint": int(bool(plan.get("resume"))),
             "fs_events": len(events),
         },
         "faults": faults,
